@@ -236,8 +236,14 @@ def gen_C19(rng, tier):
 
 
 # --------------------------------------------------------------------------- C01 / C07 / C10 / C08
+def mont_special():
+    """regular values whose MONTGOMERY limbs are boundary patterns (raw = 1, 2, 2^64-1, 2^64, ...)"""
+    raws = [1, 2, 3, 2**64 - 1, 2**64, 2**64 + 1, 2**128, 2**192, 2**192 - 1, Q - 1, Q - 2, (Q - 1) // 2]
+    return [ff_unmont(r) for r in raws]
+
+
 def field_vals(rng):
-    return [0, 1, 2, Q - 1, Q - 2, (Q - 1) // 2, 2**64 - 1, 2**64, 2**128 - 1, 2**192, 2**253, rng.randrange(Q), rng.randrange(Q), rng.randrange(2**64)]
+    return mont_special()[:4] + [0, 1, 2, Q - 1, Q - 2, (Q - 1) // 2, 2**64 - 1, 2**64, 2**128 - 1, 2**192, 2**253, rng.randrange(Q), rng.randrange(Q), rng.randrange(2**64)]
 
 
 def gen_C01(rng, tier):
@@ -252,6 +258,15 @@ def gen_C01(rng, tier):
         for _ in range(reps):
             vecs.append([rng.choice(field_vals(rng)) for _ in range(n)])
             vecs.append([rng.randrange(Q) for _ in range(n)])
+        # inputs crafted so that the FIRST S-box sees special lane values (0, 1, -1 and
+        # values whose Montgomery limbs are 1, 2, 2^64-1, ...): lane_j + RC[j] = special
+        import oracle as _o
+        rc0 = _o.grain_params(n + 1)[0][:n + 1]
+        sp = [0, 1, Q - 1] + mont_special()
+        for k in range(3 if tier == 'quick' else 12):
+            tgt = [rng.choice(sp) for _ in range(n + 1)]
+            st = [(tv - c) % Q for tv, c in zip(tgt, rc0)]
+            out.append(('poseidon %d %d %s' % (st[0], rng.choice([1, n + 1]), lst(st[1:])), 'HashWithStateEx/first-sbox-special/t=%d' % (n + 1)))
         for v in vecs:
             cap = rng.choice([0, 0, 1, Q - 1, rng.randrange(Q)])
             nouts = rng.choice([1, n + 1, rng.randrange(1, n + 2)])
